@@ -451,6 +451,34 @@ def write_replay(prop: str, payload: dict) -> Path:
     return p
 
 
+class Watchdog(BaseException):
+    """the check did not finish within its wall-clock allowance (BaseException: the harness's own `except Exception` wrappers around
+    library calls must not swallow it)"""
+
+
+class watchdog:
+    """An operation of the library that does not return (or takes hundreds of times longer than on the pinned tree) gives no verdict by
+    itself; what was established before it is still reported.  Allowance: VERIF_WATCHDOG_S, default 900 s (quick) / 6 h (thorough)."""
+
+    def __init__(self, tier: str):
+        self.limit = int(os.environ.get("VERIF_WATCHDOG_S", "900" if tier == "quick" else "21600"))
+
+    def __enter__(self):
+        import signal
+
+        def fire(signum, frame):
+            signal.alarm(5)      # (again, until it gets through: library code may catch everything around a call)
+            raise Watchdog(f"check still running after {self.limit} s")
+        self.old = signal.signal(signal.SIGALRM, fire)
+        signal.alarm(self.limit)
+
+    def __exit__(self, *exc):
+        import signal
+        signal.alarm(0)
+        signal.signal(signal.SIGALRM, self.old)
+        return False
+
+
 def run_check(prop: str, tier: str, seed: int, module) -> int:
     t0 = time.time()
     EVIDENCE.mkdir(exist_ok=True)
@@ -465,10 +493,11 @@ def run_check(prop: str, tier: str, seed: int, module) -> int:
             if not ok_lc:
                 au["bad"].append(("leanchecker", out_lc[-300:]))
         try:
-            module.run(h)
+            with watchdog(tier):
+                module.run(h)
         except InfraError:
             raise
-        except Exception:  # noqa: BLE001
+        except (Exception, Watchdog):  # noqa: BLE001
             # the harness itself tripped over something the library did (never seen on the unchanged tree).
             # What was established before is still true: judge the lines queued so far; with no failing
             # input among them this stays an infrastructure error (exit 2), otherwise they are reported.
